@@ -582,4 +582,444 @@ theorem text_okx (args : List ESub) :
                field "op".toList (quote "subscribe".toList)] := rfl
   rw [h, renderList_okx]
 
+/-! ### Added after the review of the sub-check theorems: the reader of the frame text reads what was put in -/
+
+section ReadText
+
+
+theorem lexAux_esc (s acc rest : Str) :
+    lexAux (.inStr acc) (esc s ++ '"' :: rest) = .str (acc ++ s) :: lexAux .out rest := by
+  induction s generalizing acc with
+  | nil => simp [esc, lexAux]
+  | cons c s ih =>
+    have hs : esc (c :: s) = (if c = '"' then ['\\', '"'] else if c = '\\' then ['\\', '\\'] else [c]) ++ esc s := by
+      simp [esc]
+    rw [hs]
+    by_cases h1 : c = '"'
+    · subst h1
+      simp only [↓reduceIte, List.cons_append, List.nil_append, lexAux]
+      simp [ih]
+    · by_cases h2 : c = '\\'
+      · subst h2
+        simp only [h1, ↓reduceIte, List.cons_append, List.nil_append, lexAux]
+        simp [ih]
+      · simp only [h1, h2, ↓reduceIte, List.cons_append, List.nil_append, lexAux]
+        simp [ih]
+
+theorem lexAux_quote (s rest : Str) : lexAux .out (quote s ++ rest) = .str s :: lexAux .out rest := by
+  simp only [quote, List.cons_append, List.append_assoc, lexAux, ↓reduceIte]
+  simpa using lexAux_esc s [] rest
+
+theorem lexAux_sym (c : Char) (rest : Str) (h : c ≠ '"') : lexAux .out (c :: rest) = .sym c :: lexAux .out rest := by
+  simp [lexAux, h]
+
+/-- tokens of `,"s1","s2",..` -/
+def tailToks (l : List Str) : List Tok := l.flatMap fun y => [.sym ',', .str y]
+
+/-- tokens of `"s1","s2",..` -/
+def strToks : List Str → List Tok
+  | [] => []
+  | x :: xs => .str x :: tailToks xs
+
+theorem commaSep_cons (x : Str) (xs : List Str) :
+    commaSep (x :: xs) = x ++ xs.flatMap (fun y => ',' :: y) := by
+  induction xs generalizing x with
+  | nil => simp [commaSep]
+  | cons y ys ih => simp [commaSep, ih]
+
+theorem lexAux_tail (l : List Str) (rest : Str) :
+    lexAux .out ((l.map quote).flatMap (fun y => ',' :: y) ++ rest) = tailToks l ++ lexAux .out rest := by
+  induction l with
+  | nil => simp [tailToks]
+  | cons y ys ih =>
+    simp only [List.map_cons, List.flatMap_cons, List.cons_append, List.append_assoc, tailToks]
+    rw [lexAux_sym _ _ (by decide), lexAux_quote]
+    simp only [tailToks] at ih
+    rw [ih]
+    simp
+
+theorem lexAux_strsText (l : List Str) (rest : Str) :
+    lexAux .out (strsText l ++ rest) = .sym '[' :: (strToks l ++ .sym ']' :: lexAux .out rest) := by
+  simp only [strsText, arrText, List.cons_append, List.append_assoc]
+  rw [lexAux_sym _ _ (by decide)]
+  cases l with
+  | nil => simp [commaSep, strToks, lexAux_sym]
+  | cons x xs =>
+    rw [List.map_cons, commaSep_cons, List.append_assoc, lexAux_quote, lexAux_tail]
+    simp [strToks, lexAux_sym]
+
+theorem leadingStrs_tail (l : List Str) (r : List Tok) :
+    leadingStrs (tailToks l ++ .sym ']' :: r) = l := by
+  induction l with
+  | nil => simp [tailToks, leadingStrs]
+  | cons y ys ih =>
+    simp only [tailToks, List.flatMap_cons, List.cons_append, List.nil_append, leadingStrs, ↓reduceIte]
+    simp only [tailToks] at ih
+    rw [ih]
+
+theorem leadingStrs_strToks (l : List Str) (r : List Tok) :
+    leadingStrs (strToks l ++ .sym ']' :: r) = l := by
+  cases l with
+  | nil => simp [strToks, leadingStrs]
+  | cons x xs => simp [strToks, leadingStrs, leadingStrs_tail]
+
+/-! unfolding `stringsAfter` / `arrayAfter` on explicit tokens -/
+
+theorem stringsAfter_sym (k : Str) (c : Char) (rest : List Tok) :
+    stringsAfter k (.sym c :: rest) = stringsAfter k rest := by
+  simp [stringsAfter]
+
+theorem stringsAfter_str_sym_str (k x v : Str) (c : Char) (rest : List Tok) :
+    stringsAfter k (.str x :: .sym c :: .str v :: rest)
+      = if x = k ∧ c = ':' then v :: stringsAfter k (.str v :: rest) else stringsAfter k (.str v :: rest) := by
+  rw [stringsAfter]
+  split <;> simp [stringsAfter_sym]
+
+theorem stringsAfter_str_sym_sym (k x : Str) (c c2 : Char) (rest : List Tok) :
+    stringsAfter k (.str x :: .sym c :: .sym c2 :: rest) = stringsAfter k rest := by
+  simp [stringsAfter]
+
+theorem stringsAfter_str_sym_nil (k x : Str) (c : Char) :
+    stringsAfter k [.str x, .sym c] = [] := by
+  simp [stringsAfter]
+
+theorem stringsAfter_strToks (k : Str) (l : List Str) (c : Char) (r : List Tok) :
+    stringsAfter k (strToks l ++ .sym ']' :: .sym c :: r) = stringsAfter k r := by
+  cases l with
+  | nil => simp [strToks, stringsAfter_sym]
+  | cons x xs =>
+    simp only [strToks, List.cons_append]
+    induction xs generalizing x with
+    | nil => simp [tailToks, stringsAfter_str_sym_sym]
+    | cons y ys ih =>
+      simp only [tailToks, List.flatMap_cons, List.cons_append, List.nil_append]
+      rw [stringsAfter_str_sym_str]
+      simp only [show ¬ ((',' : Char) = ':') by decide, and_false, ↓reduceIte]
+      exact ih y
+
+theorem arrayAfter_sym (k : Str) (c : Char) (rest : List Tok) :
+    arrayAfter k (.sym c :: rest) = arrayAfter k rest := by
+  simp [arrayAfter]
+
+theorem arrayAfter_str_sym_sym (k x : Str) (c1 c2 : Char) (r : List Tok) :
+    arrayAfter k (.str x :: .sym c1 :: .sym c2 :: r)
+      = if x = k ∧ c1 = ':' ∧ c2 = '[' then some (leadingStrs r) else arrayAfter k r := by
+  rw [arrayAfter]
+  split <;> simp [arrayAfter_sym]
+
+theorem arrayAfter_str_sym_str (k x v : Str) (c : Char) (rest : List Tok) :
+    arrayAfter k (.str x :: .sym c :: .str v :: rest) = arrayAfter k (.str v :: rest) := by
+  simp [arrayAfter]
+
+theorem arrayAfter_str_sym_nil (k x : Str) (c : Char) : arrayAfter k [.str x, .sym c] = none := by
+  simp [arrayAfter]
+
+theorem arrayAfter_strToks (k : Str) (l : List Str) (c : Char) (r : List Tok) :
+    arrayAfter k (strToks l ++ .sym ']' :: .sym c :: r) = arrayAfter k r := by
+  cases l with
+  | nil => simp [strToks, arrayAfter_sym]
+  | cons x xs =>
+    simp only [strToks, List.cons_append]
+    induction xs generalizing x with
+    | nil =>
+      simp only [tailToks, List.flatMap_nil, List.nil_append]
+      rw [arrayAfter_str_sym_sym]
+      simp [show ¬ ((']' : Char) = ':') by decide]
+    | cons y ys ih =>
+      simp only [tailToks, List.flatMap_cons, List.cons_append, List.nil_append]
+      rw [arrayAfter_str_sym_str]
+      exact ih y
+
+
+theorem lexAux_nil : lexAux .out [] = [] := by simp [lexAux]
+
+/-! the token lists of the eight frame shapes -/
+
+/-- tokens of one Okx `args` object -/
+def okxToks (a : ESub) : List Tok :=
+  [.sym '{', .str "channel".toList, .sym ':', .str a.chan, .sym ',', .str "instId".toList, .sym ':', .str a.market,
+   .sym '}']
+
+/-- tokens of `{..},{..},..` -/
+def okxArgsToks : List ESub → List Tok
+  | [] => []
+  | a :: as => okxToks a ++ as.flatMap fun b => .sym ',' :: okxToks b
+
+set_option linter.unusedSimpArgs false in
+theorem lexAux_okxArg (a : ESub) (rest : Str) : lexAux .out (okxArg a ++ rest) = okxToks a ++ lexAux .out rest := by
+  simp (disch := decide) only [okxArg, okxToks, objText, field, commaSep, List.append_assoc, List.cons_append,
+    List.nil_append, lexAux_quote, lexAux_sym]
+
+theorem lexAux_okxTail (l : List ESub) (rest : Str) :
+    lexAux .out ((l.map okxArg).flatMap (fun y => ',' :: y) ++ rest)
+      = (l.flatMap fun b => .sym ',' :: okxToks b) ++ lexAux .out rest := by
+  induction l with
+  | nil => simp
+  | cons y ys ih =>
+    simp only [List.map_cons, List.flatMap_cons, List.cons_append, List.append_assoc]
+    rw [lexAux_sym _ _ (by decide), lexAux_okxArg, ih]
+
+theorem lexAux_okxArgs (l : List ESub) (rest : Str) :
+    lexAux .out (arrText (l.map okxArg) ++ rest) = .sym '[' :: (okxArgsToks l ++ .sym ']' :: lexAux .out rest) := by
+  simp only [arrText, List.cons_append, List.append_assoc]
+  rw [lexAux_sym _ _ (by decide)]
+  cases l with
+  | nil => simp [commaSep, okxArgsToks, lexAux_sym]
+  | cons x xs =>
+    rw [List.map_cons, commaSep_cons, List.append_assoc, lexAux_okxArg, lexAux_okxTail]
+    simp [okxArgsToks, lexAux_sym]
+
+set_option linter.unusedSimpArgs false
+
+theorem lex_binance (params : List Str) :
+    lex (Wire.text (.binance params)) =
+      .sym '{' :: .str "id".toList :: .sym ':' :: .sym '1' :: .sym ',' :: .str "method".toList :: .sym ':' ::
+        .str "SUBSCRIBE".toList :: .sym ',' :: .str "params".toList :: .sym ':' :: .sym '[' ::
+        (strToks params ++ .sym ']' :: [.sym '}']) := by
+  have h1 : ("1".toList : Str) = ['1'] := by decide
+  rw [text_binance, h1]
+  simp (disch := decide) only [lex, objText, field, commaSep, List.append_assoc, List.cons_append,
+    List.nil_append, lexAux_quote, lexAux_strsText, lexAux_sym, lexAux_nil]
+
+theorem lex_bitmex (args : List Str) :
+    lex (Wire.text (.bitmex args)) =
+      .sym '{' :: .str "args".toList :: .sym ':' :: .sym '[' ::
+        (strToks args ++ .sym ']' :: .sym ',' :: .str "op".toList :: .sym ':' :: .str "subscribe".toList ::
+          [.sym '}']) := by
+  rw [text_bitmex]
+  simp (disch := decide) only [lex, objText, field, commaSep, List.append_assoc, List.cons_append,
+    List.nil_append, lexAux_quote, lexAux_strsText, lexAux_sym, lexAux_nil]
+
+theorem lex_bybit (args : List Str) :
+    lex (Wire.text (.bybit args)) =
+      .sym '{' :: .str "args".toList :: .sym ':' :: .sym '[' ::
+        (strToks args ++ .sym ']' :: .sym ',' :: .str "op".toList :: .sym ':' :: .str "subscribe".toList ::
+          [.sym '}']) := by
+  rw [text_bybit]
+  simp (disch := decide) only [lex, objText, field, commaSep, List.append_assoc, List.cons_append,
+    List.nil_append, lexAux_quote, lexAux_strsText, lexAux_sym, lexAux_nil]
+
+theorem lex_coinbase (ps cs : List Str) :
+    lex (Wire.text (.coinbase ps cs)) =
+      .sym '{' :: .str "channels".toList :: .sym ':' :: .sym '[' ::
+        (strToks cs ++ .sym ']' :: .sym ',' :: .str "product_ids".toList :: .sym ':' :: .sym '[' ::
+          (strToks ps ++ .sym ']' :: .sym ',' :: .str "type".toList :: .sym ':' :: .str "subscribe".toList ::
+            [.sym '}'])) := by
+  rw [text_coinbase]
+  simp (disch := decide) only [lex, objText, field, commaSep, List.append_assoc, List.cons_append,
+    List.nil_append, lexAux_quote, lexAux_strsText, lexAux_sym, lexAux_nil]
+
+theorem lex_gateio (c : Str) (payload : List Str) :
+    lex (Wire.text (.gateio c payload)) =
+      .sym '{' :: .str "channel".toList :: .sym ':' :: .str c :: .sym ',' :: .str "event".toList :: .sym ':' ::
+        .str "subscribe".toList :: .sym ',' :: .str "payload".toList :: .sym ':' :: .sym '[' ::
+        (strToks payload ++ .sym ']' :: .sym ',' :: .str "time".toList :: .sym ':' :: .sym 'N' :: .sym 'O' ::
+          .sym 'W' :: [.sym '}']) := by
+  have h1 : ("NOW".toList : Str) = ['N', 'O', 'W'] := by decide
+  rw [text_gateio, h1]
+  simp (disch := decide) only [lex, objText, field, commaSep, List.append_assoc, List.cons_append,
+    List.nil_append, lexAux_quote, lexAux_strsText, lexAux_sym, lexAux_nil]
+
+theorem lex_kraken (pair : List Str) (name : Str) :
+    lex (Wire.text (.kraken pair name)) =
+      .sym '{' :: .str "event".toList :: .sym ':' :: .str "subscribe".toList :: .sym ',' :: .str "pair".toList ::
+        .sym ':' :: .sym '[' ::
+        (strToks pair ++ .sym ']' :: .sym ',' :: .str "subscription".toList :: .sym ':' :: .sym '{' ::
+          .str "name".toList :: .sym ':' :: .str name :: .sym '}' :: [.sym '}']) := by
+  rw [text_kraken]
+  simp (disch := decide) only [lex, objText, field, commaSep, List.append_assoc, List.cons_append,
+    List.nil_append, lexAux_quote, lexAux_strsText, lexAux_sym, lexAux_nil]
+
+theorem lex_bitfinex (c sy : Str) :
+    lex (Wire.text (.bitfinex c sy)) =
+      [.sym '{', .str "channel".toList, .sym ':', .str c, .sym ',', .str "event".toList, .sym ':',
+       .str "subscribe".toList, .sym ',', .str "symbol".toList, .sym ':', .str sy, .sym '}'] := by
+  rw [text_bitfinex]
+  simp (disch := decide) only [lex, objText, field, commaSep, List.append_assoc, List.cons_append,
+    List.nil_append, lexAux_quote, lexAux_strsText, lexAux_sym, lexAux_nil]
+
+theorem lex_okx (args : List ESub) :
+    lex (Wire.text (.okx args)) =
+      .sym '{' :: .str "args".toList :: .sym ':' :: .sym '[' ::
+        (okxArgsToks args ++ .sym ']' :: .sym ',' :: .str "op".toList :: .sym ':' :: .str "subscribe".toList ::
+          [.sym '}']) := by
+  rw [text_okx]
+  simp (disch := decide) only [lex, objText, field, commaSep, List.append_assoc, List.cons_append,
+    List.nil_append, lexAux_quote, lexAux_okxArgs, lexAux_sym, lexAux_nil]
+
+/-! reading the token lists -/
+
+theorem stringsAfter_str_sym (k x : Str) (c : Char) (r : List Tok) (hc : c ≠ ':') :
+    stringsAfter k (.str x :: .sym c :: r) = stringsAfter k r := by
+  cases r with
+  | nil => simp [stringsAfter]
+  | cons t r' => cases t <;> simp [stringsAfter, hc]
+
+
+theorem stringsAfter_okxToks_chan (a : ESub) (r : List Tok) :
+    stringsAfter "channel".toList (okxToks a ++ r) = [a.chan] ++ stringsAfter "channel".toList r := by
+  simp only [okxToks, List.cons_append, List.nil_append, stringsAfter_sym, stringsAfter_str_sym_str]
+  rw [stringsAfter_str_sym _ a.market '}' r (by decide)]
+  simp
+
+theorem stringsAfter_okxToks_inst (a : ESub) (r : List Tok) :
+    stringsAfter "instId".toList (okxToks a ++ r) = [a.market] ++ stringsAfter "instId".toList r := by
+  simp only [okxToks, List.cons_append, List.nil_append, stringsAfter_sym, stringsAfter_str_sym_str]
+  rw [stringsAfter_str_sym _ a.market '}' r (by decide)]
+  simp
+
+theorem stringsAfter_okxToks_op (a : ESub) (r : List Tok) :
+    stringsAfter "op".toList (okxToks a ++ r) = [] ++ stringsAfter "op".toList r := by
+  simp only [okxToks, List.cons_append, List.nil_append, stringsAfter_sym, stringsAfter_str_sym_str]
+  rw [stringsAfter_str_sym _ a.market '}' r (by decide)]
+  simp
+
+/-- a key that every `args` object answers with `f a`: so does the whole array -/
+theorem stringsAfter_okxArgsToks (k : Str) (f : ESub → List Str)
+    (hf : ∀ a r, stringsAfter k (okxToks a ++ r) = f a ++ stringsAfter k r) (l : List ESub) (r : List Tok) :
+    stringsAfter k (okxArgsToks l ++ r) = l.flatMap f ++ stringsAfter k r := by
+  have htail : ∀ (l : List ESub), stringsAfter k ((l.flatMap fun b => .sym ',' :: okxToks b) ++ r)
+      = l.flatMap f ++ stringsAfter k r := by
+    intro l
+    induction l with
+    | nil => simp
+    | cons y ys ih =>
+      simp only [List.flatMap_cons, List.cons_append, List.append_assoc, stringsAfter_sym]
+      rw [hf, ih]
+  cases l with
+  | nil => simp [okxArgsToks]
+  | cons x xs =>
+    simp only [okxArgsToks, List.append_assoc, List.flatMap_cons]
+    rw [hf, htail]
+
+theorem flatMap_singleton' {α β : Type} (f : α → β) (l : List α) : (l.flatMap fun a => [f a]) = l.map f := by
+  induction l with
+  | nil => rfl
+  | cons a l ih => simp [ih]
+
+theorem zipWith_map_map {α β γ δ : Type} (f : β → γ → δ) (g : α → β) (h : α → γ) (l : List α) :
+    List.zipWith f (l.map g) (l.map h) = l.map fun a => f (g a) (h a) := by
+  induction l with
+  | nil => rfl
+  | cons a l ih => simp [ih]
+
+theorem read_bitmex (args : List Str) :
+    readText .bitmex (Wire.text (Wire.bitmex args)) = some ((Wire.bitmex args).verb, (Wire.bitmex args).topics) := by
+  unfold readText
+  rw [lex_bitmex]
+  simp only [stringAfter, stringsAfter_sym, stringsAfter_str_sym_sym, stringsAfter_strToks,
+    stringsAfter_str_sym_str, stringsAfter_str_sym_nil, arrayAfter_sym, arrayAfter_str_sym_sym,
+    arrayAfter_str_sym_str, arrayAfter_str_sym_nil, arrayAfter_strToks, leadingStrs_strToks]
+  simp
+  exact ⟨rfl, rfl⟩
+
+theorem read_bybit (args : List Str) :
+    readText .bybit (Wire.text (Wire.bybit args)) = some ((Wire.bybit args).verb, (Wire.bybit args).topics) := by
+  unfold readText
+  rw [lex_bybit]
+  simp only [stringAfter, stringsAfter_sym, stringsAfter_str_sym_sym, stringsAfter_strToks,
+    stringsAfter_str_sym_str, stringsAfter_str_sym_nil, arrayAfter_sym, arrayAfter_str_sym_sym,
+    arrayAfter_str_sym_str, arrayAfter_str_sym_nil, arrayAfter_strToks, leadingStrs_strToks]
+  simp
+  exact ⟨rfl, rfl⟩
+
+theorem read_binance (params : List Str) :
+    readText .binance (Wire.text (Wire.binance params)) = some ((Wire.binance params).verb, (Wire.binance params).topics) := by
+  unfold readText
+  rw [lex_binance]
+  simp only [stringAfter, stringsAfter_sym, stringsAfter_str_sym_sym, stringsAfter_strToks,
+    stringsAfter_str_sym_str, stringsAfter_str_sym_nil, arrayAfter_sym, arrayAfter_str_sym_sym,
+    arrayAfter_str_sym_str, arrayAfter_str_sym_nil, arrayAfter_strToks, leadingStrs_strToks]
+  simp
+  exact ⟨rfl, rfl⟩
+
+theorem read_coinbase (ps cs : List Str) :
+    readText .coinbase (Wire.text (Wire.coinbase ps cs)) = some ((Wire.coinbase ps cs).verb, (Wire.coinbase ps cs).topics) := by
+  unfold readText
+  rw [lex_coinbase]
+  simp only [stringAfter, stringsAfter_sym, stringsAfter_str_sym_sym, stringsAfter_strToks,
+    stringsAfter_str_sym_str, stringsAfter_str_sym_nil, arrayAfter_sym, arrayAfter_str_sym_sym,
+    arrayAfter_str_sym_str, arrayAfter_str_sym_nil, arrayAfter_strToks, leadingStrs_strToks]
+  simp
+  exact ⟨rfl, rfl⟩
+
+theorem read_gateio (c : Str) (payload : List Str) :
+    readText .gateio (Wire.text (Wire.gateio c payload)) = some ((Wire.gateio c payload).verb, (Wire.gateio c payload).topics) := by
+  unfold readText
+  rw [lex_gateio]
+  simp only [stringAfter, stringsAfter_sym, stringsAfter_str_sym_sym, stringsAfter_strToks,
+    stringsAfter_str_sym_str, stringsAfter_str_sym_nil, arrayAfter_sym, arrayAfter_str_sym_sym,
+    arrayAfter_str_sym_str, arrayAfter_str_sym_nil, arrayAfter_strToks, leadingStrs_strToks]
+  simp
+  exact ⟨rfl, rfl⟩
+
+theorem read_kraken (pair : List Str) (name : Str) :
+    readText .kraken (Wire.text (Wire.kraken pair name)) = some ((Wire.kraken pair name).verb, (Wire.kraken pair name).topics) := by
+  unfold readText
+  rw [lex_kraken]
+  simp only [stringAfter, stringsAfter_sym, stringsAfter_str_sym_sym, stringsAfter_strToks,
+    stringsAfter_str_sym_str, stringsAfter_str_sym_nil, arrayAfter_sym, arrayAfter_str_sym_sym,
+    arrayAfter_str_sym_str, arrayAfter_str_sym_nil, arrayAfter_strToks, leadingStrs_strToks]
+  simp
+  exact ⟨rfl, rfl⟩
+
+theorem read_bitfinex (c sy : Str) :
+    readText .bitfinex (Wire.text (Wire.bitfinex c sy)) = some ((Wire.bitfinex c sy).verb, (Wire.bitfinex c sy).topics) := by
+  unfold readText
+  rw [lex_bitfinex]
+  simp only [stringAfter, stringsAfter_sym, stringsAfter_str_sym_sym, stringsAfter_strToks,
+    stringsAfter_str_sym_str, stringsAfter_str_sym_nil, arrayAfter_sym, arrayAfter_str_sym_sym,
+    arrayAfter_str_sym_str, arrayAfter_str_sym_nil, arrayAfter_strToks, leadingStrs_strToks]
+  simp
+  exact ⟨rfl, rfl⟩
+
+theorem stringsAfter_okx_chan (args : List ESub) :
+    stringsAfter "channel".toList (lex (Wire.text (.okx args))) = args.map (·.chan) := by
+  rw [lex_okx]
+  simp only [stringsAfter_sym, stringsAfter_str_sym_sym]
+  rw [stringsAfter_okxArgsToks _ _ stringsAfter_okxToks_chan]
+  simp only [stringsAfter_sym, stringsAfter_str_sym_str, stringsAfter_str_sym_nil, flatMap_singleton']
+  simp
+
+theorem stringsAfter_okx_inst (args : List ESub) :
+    stringsAfter "instId".toList (lex (Wire.text (.okx args))) = args.map (·.market) := by
+  rw [lex_okx]
+  simp only [stringsAfter_sym, stringsAfter_str_sym_sym]
+  rw [stringsAfter_okxArgsToks _ _ stringsAfter_okxToks_inst]
+  simp only [stringsAfter_sym, stringsAfter_str_sym_str, stringsAfter_str_sym_nil, flatMap_singleton']
+  simp
+
+theorem stringsAfter_okx_op (args : List ESub) :
+    stringsAfter "op".toList (lex (Wire.text (.okx args))) = ["subscribe".toList] := by
+  rw [lex_okx]
+  simp only [stringsAfter_sym, stringsAfter_str_sym_sym]
+  rw [stringsAfter_okxArgsToks _ _ stringsAfter_okxToks_op]
+  simp only [stringsAfter_sym, stringsAfter_str_sym_str, stringsAfter_str_sym_nil]
+  simp
+
+theorem read_okx (args : List ESub) :
+    readText .okx (Wire.text (.okx args)) = some ((Wire.okx args).verb, (Wire.okx args).topics) := by
+  unfold readText
+  simp only [stringAfter, stringsAfter_okx_chan, stringsAfter_okx_inst, stringsAfter_okx_op, zipWith_map_map,
+    List.head?_cons]
+  rfl
+
+/-- **The venue-side reading of the frame TEXT is the reading of the frame.** For every frame
+`Connector::requests` can produce and all names (escaping of `"` and `\` included), reading the JSON text of
+the frame with the venue's documented grammar gives the frame's verb and topics. -/
+theorem readText_text (e : Exch) (subs : List ESub) :
+    ∀ w ∈ requests e subs, readText (family e) w.text = some (w.verb, w.topics) := by
+  rw [requests_of_family]
+  cases hf : family e <;> simp only [List.mem_cons, List.mem_map, List.not_mem_nil, or_false]
+  · rintro w rfl; exact read_binance _
+  · rintro w rfl; exact read_bybit _
+  · rintro w rfl; exact read_bitmex _
+  · rintro w ⟨s, _, rfl⟩; exact read_coinbase _ _
+  · rintro w ⟨s, _, rfl⟩; exact read_gateio _ _
+  · rintro w ⟨s, _, rfl⟩; exact read_kraken _ _
+  · rintro w rfl; exact read_okx _
+  · rintro w ⟨s, _, rfl⟩; exact read_bitfinex _ _
+
+end ReadText
+
 end BarterModel.SubRequests
